@@ -1,25 +1,11 @@
-// BOUNDED contract check of the binary frame codecs of swimos_agent_protocol -- property C10.
-// (The resumable decoders are state machines over BytesMut with `format!` error paths and generic inner codecs; bringing
-// them under Verus needs a framing theory for generic inner decoders that is not built yet -- see DESIGN.md. This harness is
-// the bounded stand-in.)
-// For every codec pair and every stream of one or two messages from a small universe (empty and non-empty payloads):
-//   fragmentation: for EVERY way of cutting the stream into two chunks (and three chunks for short streams) the decoder yields
-//                  exactly the messages that decoding the unsplit stream yields, exactly as many as were encoded, re-encoding
-//                  them gives back the stream (where the decoded type can be re-encoded), and no byte is left over;
-//   robustness:    every prefix of the stream, every tag byte replaced by every value, and small changes to every non-zero
-//                  byte produce Ok/Err -- never a panic and never a hang (zero bytes are left alone so that corrupt lengths
-//                  stay small: a huge corrupt length makes `reserve` abort the process, which is inherent in the framing).
-use crate::encoding::command::*;
-use crate::encoding::downlink::*;
-use crate::encoding::lane::*;
-use crate::encoding::map::*;
-use crate::encoding::store::*;
-use crate::*;
+// BOUNDED contract check of the routed request/response frame codecs of swimos_messages (runtime/swimos_messages/src/
+// protocol/mod.rs) -- property C10. Same contract and method as bx/swimos_agent_protocol/codecs.rs: exact round trip for every
+// 2-chunk (and, for short streams, 3-chunk) cut of every stream of one or two messages; prefixes / tag / small byte corruptions
+// give Ok/Err, never a panic or a hang (run in child processes, see there).
+use super::*;
 use bytes::{Bytes, BytesMut};
 use std::fmt::Debug;
 use std::panic::{catch_unwind, AssertUnwindSafe};
-use swimos_api::address::Address;
-use swimos_utilities::encoding::BytesStr;
 use tokio_util::codec::{Decoder, Encoder};
 use uuid::Uuid;
 
@@ -239,109 +225,39 @@ fn no_reenc<T>(_: T, _: &mut BytesMut) -> bool {
 
 const B: [&[u8]; 3] = [b"", b"x", b"@a{1}"];
 
-fn map_messages() -> Vec<MapMessage<&'static [u8], &'static [u8]>> {
-    let mut v = vec![MapMessage::Clear, MapMessage::Take(0), MapMessage::Take(3), MapMessage::Drop(2)];
-    for k in B {
-        v.push(MapMessage::Remove { key: k });
-        for x in B {
-            v.push(MapMessage::Update { key: k, value: x });
-        }
-    }
-    v
-}
-fn map_operations() -> Vec<MapOperation<&'static [u8], &'static [u8]>> {
-    let mut v = vec![MapOperation::Clear];
-    for k in B {
-        v.push(MapOperation::Remove { key: k });
-        for x in B {
-            v.push(MapOperation::Update { key: k, value: x });
-        }
-    }
-    v
-}
-
 fn run_all(rep: &mut Report) {
     // (the high-order bytes of the id are zero so that a corrupt tag cannot turn them into a huge length)
     let id = Uuid::from_u128(0x0a0b);
+    let paths = [RelativeAddress::new("/n", "l"), RelativeAddress::new("", ""), RelativeAddress::new("/node/%41", "lane")];
 
-    // ---- lane requests / responses (raw value)
-    let frames: Vec<Vec<u8>> = B.iter().map(|b| enc(RawValueLaneRequestEncoder::default(), LaneRequest::Command(*b)))
-        .chain([enc(RawValueLaneRequestEncoder::default(), LaneRequest::<&[u8]>::Sync(id)), enc(RawValueLaneRequestEncoder::default(), LaneRequest::<&[u8]>::InitComplete)]).collect();
-    check_codec("RawValueLaneRequest", true, &frames, &RawValueLaneRequestDecoder::default,
-        &|item: LaneRequest<BytesMut>, out: &mut BytesMut| RawValueLaneRequestEncoder::default().encode(item, out).is_ok(), rep);
-
-    let frames: Vec<Vec<u8>> = B.iter().flat_map(|b| [enc(RawValueLaneResponseEncoder::default(), LaneResponse::StandardEvent(*b)), enc(RawValueLaneResponseEncoder::default(), LaneResponse::SyncEvent(id, *b))])
-        .chain([enc(RawValueLaneResponseEncoder::default(), LaneResponse::<&[u8]>::Initialized), enc(RawValueLaneResponseEncoder::default(), LaneResponse::<&[u8]>::Synced(id))]).collect();
-    check_codec("RawValueLaneResponse", true, &frames, &RawValueLaneResponseDecoder::default,
-        &|item: LaneResponse<BytesMut>, out: &mut BytesMut| RawValueLaneResponseEncoder::default().encode(item, out).is_ok(), rep);
-
-    // ---- map operations / messages
-    let frames: Vec<Vec<u8>> = map_operations().into_iter().map(|op| enc(RawMapOperationEncoder::default(), op)).collect();
-    check_codec("RawMapOperation", true, &frames, &RawMapOperationDecoder::default,
-        &|item: MapOperation<BytesMut, BytesMut>, out: &mut BytesMut| RawMapOperationEncoder::default().encode(item, out).is_ok(), rep);
-
-    let frames: Vec<Vec<u8>> = map_messages().into_iter().map(|m| enc(RawMapMessageEncoder::default(), m)).collect();
-    check_codec("RawMapMessage", true, &frames, &RawMapMessageDecoder::default,
-        &|item: MapMessage<BytesMut, BytesMut>, out: &mut BytesMut| RawMapMessageEncoder::default().encode(item, out).is_ok(), rep);
-
-    // ---- lane requests / responses (raw map)
-    let frames: Vec<Vec<u8>> = map_messages().into_iter().take(8).map(|m| enc(RawMapLaneRequestEncoder::default(), LaneRequest::Command(m)))
-        .chain([enc(RawMapLaneRequestEncoder::default(), LaneRequest::<MapMessage<&[u8], &[u8]>>::Sync(id)), enc(RawMapLaneRequestEncoder::default(), LaneRequest::<MapMessage<&[u8], &[u8]>>::InitComplete)]).collect();
-    check_codec("RawMapLaneRequest", true, &frames, &RawMapLaneRequestDecoder::default,
-        &|item: LaneRequest<MapMessage<BytesMut, BytesMut>>, out: &mut BytesMut| RawMapLaneRequestEncoder::default().encode(item, out).is_ok(), rep);
-
-    let frames: Vec<Vec<u8>> = map_operations().into_iter().take(6).flat_map(|op| [enc(RawMapLaneResponseEncoder::default(), LaneResponse::StandardEvent(op)), enc(RawMapLaneResponseEncoder::default(), LaneResponse::SyncEvent(id, op))])
-        .chain([enc(RawMapLaneResponseEncoder::default(), MapLaneResponse::<&[u8], &[u8]>::Initialized), enc(RawMapLaneResponseEncoder::default(), MapLaneResponse::<&[u8], &[u8]>::Synced(id))]).collect();
-    check_codec("RawMapLaneResponse", true, &frames, &RawMapLaneResponseDecoder::default,
-        &|item: LaneResponse<MapOperation<BytesMut, BytesMut>>, out: &mut BytesMut| RawMapLaneResponseEncoder::default().encode(item, out).is_ok(), rep);
-
-    // ---- store initialisation / responses
-    let frames: Vec<Vec<u8>> = B.iter().map(|b| enc(RawValueStoreInitEncoder::default(), StoreInitMessage::Command(*b)))
-        .chain([enc(RawValueStoreInitEncoder::default(), StoreInitMessage::<&[u8]>::InitComplete)]).collect();
-    check_codec("RawValueStoreInit", true, &frames, &RawValueStoreInitDecoder::default,
-        &|item: StoreInitMessage<BytesMut>, out: &mut BytesMut| RawValueStoreInitEncoder::default().encode(item, out).is_ok(), rep);
-
-    let frames: Vec<Vec<u8>> = map_messages().into_iter().take(8).map(|m| enc(RawMapStoreInitEncoder::default(), StoreInitMessage::Command(m)))
-        .chain([enc(RawMapStoreInitEncoder::default(), StoreInitMessage::<MapMessage<&[u8], &[u8]>>::InitComplete)]).collect();
-    check_codec("RawMapStoreInit", true, &frames, &RawMapStoreInitDecoder::default,
-        &|item: StoreInitMessage<MapMessage<BytesMut, BytesMut>>, out: &mut BytesMut| RawMapStoreInitEncoder::default().encode(item, out).is_ok(), rep);
-
-    let frames = vec![enc(StoreInitializedCodec, StoreInitialized)];
-    check_codec("StoreInitialized", false, &frames, &|| StoreInitializedCodec,
-        &|item: StoreInitialized, out: &mut BytesMut| StoreInitializedCodec.encode(item, out).is_ok(), rep);
-
-    let frames: Vec<Vec<u8>> = [0i32, 7, -12345].iter().map(|n| enc(ValueStoreResponseEncoder::default(), StoreResponse::new(*n))).collect();
-    check_codec("ValueStoreResponse(raw decoder)", false, &frames, &RawValueStoreResponseDecoder::default, &no_reenc::<StoreResponse<BytesMut>>, rep);
-
-    let frames: Vec<Vec<u8>> = [MapOperation::Update { key: 1i32, value: 2i32 }, MapOperation::Remove { key: 5 }, MapOperation::Clear].into_iter()
-        .map(|op| enc(MapStoreResponseEncoder::default(), StoreResponse::new(op))).collect();
-    check_codec("MapStoreResponse(raw decoder)", false, &frames, &RawMapStoreResponseDecoder::default, &no_reenc::<StoreResponse<MapOperation<BytesMut, BytesMut>>>, rep);
-
-    // ---- downlink notifications / operations
-    let frames: Vec<Vec<u8>> = [b"1".as_slice(), b"-77", b"12"].iter().map(|b| enc(DownlinkNotificationEncoder, DownlinkNotification::Event { body: *b }))
-        .chain([enc(DownlinkNotificationEncoder, DownlinkNotification::<&[u8]>::Linked), enc(DownlinkNotificationEncoder, DownlinkNotification::<&[u8]>::Synced), enc(DownlinkNotificationEncoder, DownlinkNotification::<&[u8]>::Unlinked)]).collect();
-    check_codec("DownlinkNotification(i32 bodies)", true, &frames, &ValueNotificationDecoder::<i32>::default, &no_reenc::<DownlinkNotification<i32>>, rep);
-
-    let frames: Vec<Vec<u8>> = [0i32, 42, -9].iter().map(|n| enc(DownlinkOperationEncoder::default(), DownlinkOperation::new(*n))).collect();
-    check_codec("DownlinkOperation", false, &frames, &DownlinkOperationDecoder::default, &no_reenc::<DownlinkOperation<Bytes>>, rep);
-
-    // ---- ad hoc command messages
-    let addrs = [Address::new(None, "/n", "l"), Address::new(Some("h:1"), "/node", "lane"), Address::new(Some(""), "", "")];
+    // ---- requests: link / sync / unlink / command(body)
     let mut frames: Vec<Vec<u8>> = vec![];
-    for a in &addrs {
-        frames.push(enc(RawCommandMessageEncoder::default(), CommandMessage::<&str, &[u8]>::Register { address: a.clone(), id: 3 }));
+    for p in &paths {
+        frames.push(enc(RawRequestMessageEncoder, RequestMessage::<&str, &[u8]> { origin: id, path: p.clone(), envelope: Operation::Link }));
+        frames.push(enc(RawRequestMessageEncoder, RequestMessage::<&str, &[u8]> { origin: id, path: p.clone(), envelope: Operation::Sync }));
+        frames.push(enc(RawRequestMessageEncoder, RequestMessage::<&str, &[u8]> { origin: id, path: p.clone(), envelope: Operation::Unlink }));
         for b in B {
-            for ow in [false, true] {
-                frames.push(enc(RawCommandMessageEncoder::default(), CommandMessage::<&str, &[u8]>::Addressed { target: a.clone(), command: b, overwrite_permitted: ow }));
+            frames.push(enc(RawRequestMessageEncoder, RequestMessage::<&str, &[u8]> { origin: id, path: p.clone(), envelope: Operation::Command(b) }));
+        }
+    }
+    check_codec("RawRequestMessage", true, &frames, &RawRequestMessageDecoder::default,
+        &|item: RequestMessage<BytesStr, Bytes>, out: &mut BytesMut| RawRequestMessageEncoder.encode(item, out).is_ok(), rep);
+
+    // ---- responses: linked / synced / unlinked(optional body) / event(body)
+    let mut frames: Vec<Vec<u8>> = vec![];
+    for p in &paths {
+        frames.push(enc(RawResponseMessageEncoder, ResponseMessage::<&str, &[u8], &[u8]> { origin: id, path: p.clone(), envelope: Notification::Linked }));
+        frames.push(enc(RawResponseMessageEncoder, ResponseMessage::<&str, &[u8], &[u8]> { origin: id, path: p.clone(), envelope: Notification::Synced }));
+        frames.push(enc(RawResponseMessageEncoder, ResponseMessage::<&str, &[u8], &[u8]> { origin: id, path: p.clone(), envelope: Notification::Unlinked(None) }));
+        for b in B {
+            frames.push(enc(RawResponseMessageEncoder, ResponseMessage::<&str, &[u8], &[u8]> { origin: id, path: p.clone(), envelope: Notification::Event(b) }));
+            if !b.is_empty() {
+                frames.push(enc(RawResponseMessageEncoder, ResponseMessage::<&str, &[u8], &[u8]> { origin: id, path: p.clone(), envelope: Notification::Unlinked(Some(b)) }));
             }
         }
     }
-    for b in B {
-        frames.push(enc(RawCommandMessageEncoder::default(), CommandMessage::<&str, &[u8]>::Registered { target: 3, command: b, overwrite_permitted: true }));
-    }
-    check_codec("RawCommandMessage", true, &frames, &RawCommandMessageDecoder::<BytesStr>::default,
-        &|item: CommandMessage<BytesStr, BytesMut>, out: &mut BytesMut| RawCommandMessageEncoder::default().encode(item, out).is_ok(), rep);
-
+    check_codec("RawResponseMessage", true, &frames, &RawResponseMessageDecoder::default,
+        &|item: ResponseMessage<BytesStr, Bytes, Bytes>, out: &mut BytesMut| RawResponseMessageEncoder.encode(item, out).is_ok(), rep);
 }
 
 // child: runs the robustness variants from VERIF_BX_SKIP on, writing its progress before every variant
@@ -369,7 +285,7 @@ fn codec_contract() {
     let mut rep = Report { mode: Mode::Fragmentation, evaluations: 0, variant: 0, progress: None, frag_fail: Default::default(), robust_fail: Default::default(), codecs: vec![] };
     run_all(&mut rep);
     // robustness in child processes
-    let progress = std::env::temp_dir().join(format!("verif_bx_codecs_progress_{}", std::process::id()));
+    let progress = std::env::temp_dir().join(format!("verif_bx_messages_progress_{}", std::process::id()));
     let mut skip = 0usize;
     let mut aborts: Vec<String> = vec![];
     let mut robust_evals = 0usize;
@@ -405,7 +321,7 @@ fn codec_contract() {
     let _ = std::fs::remove_file(&progress);
     rep.evaluations += robust_evals;
     std::panic::set_hook(prev);
-    println!("BX-SAMPLE 13 codec pairs of swimos_agent_protocol; streams of 1 and 2 messages, every 2-chunk cut, every 3-chunk cut of streams <= 48 bytes, prefixes/tag/small byte corruptions");
+    println!("BX-SAMPLE RawRequestMessage / RawResponseMessage of swimos_messages; streams of 1 and 2 messages, every 2-chunk cut, every 3-chunk cut of streams <= 48 bytes, prefixes/tag/small byte corruptions");
     let mut failed = false;
     let slug = |c: &str| c.replace(|ch: char| !ch.is_ascii_alphanumeric(), "_");
     for c in &rep.codecs {
